@@ -67,7 +67,7 @@ type faultCase struct {
 func c01(args []string) {
 	c := chk.New("C01", "fault_enumeration", args)
 	c.Build(false)
-	c.Rule("directed topologies (single task; 2-output task feeding two consumers; 6 parallel tasks with fan-in; task with additional files; task whose declared output is a directory of three files) x output-path shapes (plain, nested new directories, ../, absolute) x {command, Go function}; faults: every command failure mode on tasks in turn (exit non-zero before/mid/after writing, SIGKILL, SIGSEGV, shell killed, output omitted / misplaced), the process group killed by the command itself before / in the middle of / after writing, the group killed at hook crash points of every task (enumerated from the event log of a crash-free dry run), kills at logical instants (k-th line of the command trace); oracle after every terminated run: a file at a declared final path implies a successful end event of that task and the complete reference bytes; commands stat their own final path while running (must not exist); every other new file lies inside a _scipipe_tmp.* directory; commands whose output is written by a helper that outlives them (no failure at all: nothing may be visible before the helper is done); Go-function tasks also fail by panicking (after half / all of the output is written). distinct_nontrivial = distinct (topology, path shape, kind, fault, target) whose fault really fired (kill observed / failing command ran)")
+	c.Rule("directed topologies (single task; 2-output task feeding two consumers; 6 parallel tasks with fan-in; task with additional files; task whose declared output is a directory of three files) x output-path shapes (plain, nested new directories, ../, absolute) x {command, Go function}; faults: every command failure mode on tasks in turn (exit non-zero before/mid/after writing, SIGKILL, SIGSEGV, shell killed, output omitted / misplaced), the process group killed by the command itself before / in the middle of / after writing, the group killed at hook crash points of every task (enumerated from the event log of a crash-free dry run), kills at logical instants (k-th line of the command trace); oracle after every terminated run: a file at a declared final path implies a successful end event of that task and the complete reference bytes; commands stat their own final path while running (must not exist); every other new file lies inside a _scipipe_tmp.* directory; commands whose output is written by a helper that outlives them (no failure at all: nothing may be visible before the helper is done); Go-function tasks also fail by panicking (after half / all of the output is written); six tasks failing at once with long error reports on a slowly read error stream (the failures overlap in time). distinct_nontrivial = distinct (topology, path shape, kind, fault, target) whose fault really fired (kill observed / failing command ran)")
 	c.Assume("working directory, ../ targets and absolute targets are on one file system", "destination directories of ../ and absolute outputs exist before the run (as the property allows)", "<path>.audit.json files and empty directories are not judged")
 	rng := c.Rand("c01")
 	var tcs []topoCase
@@ -242,6 +242,15 @@ func c01(args []string) {
 			cases = append(cases, &faultCase{tc: topoCase{k, []gen.PathShape{gen.ShapePlain, gen.ShapeNested}[r%2], false, 2}, label: "background-writer", opts: map[string]string{"bgwrite": "1", "pause": "1500", "size": "3000"}, cfg: Cfg{Buf: 128, Procs: 4}})
 		}
 	}
+	// failures that overlap in time: all six parallel tasks of A fail in the middle of writing, each with a 4 MB
+	// error report; error messages go to a stream of their own (the library's InitLogError) that is read slowly, so the
+	// report of the first failure is still being written when the others fail
+	for _, sh := range []gen.PathShape{gen.ShapePlain, gen.ShapeNested, gen.ShapeParent, gen.ShapeAbs} {
+		for r := 0; r < c.Pick(1, 3); r++ {
+			cases = append(cases, &faultCase{tc: topoCase{"fanin", sh, false, 2}, label: "fail=overlapping-failures", key: "A",
+				opts: map[string]string{"fail": []string{"exit-mid-write", "exit-after-write"}[r%2], "sleep": "60", "noise": "4000000"}, cfg: Cfg{Buf: 128, Procs: 4, Quiet: true, SlowErr: true, NoHooks: r%2 == 1}})
+		}
+	}
 	run.Parallel(len(cases), func(i int) {
 		fc := cases[i]
 		root := c.CaseDir()
@@ -292,7 +301,7 @@ func c01(args []string) {
 			cfg.Crash = fc.crash.Env()
 		}
 		sp := s
-		cs := &run.Case{Root: root, Bin: c.Bin, Spec: sp, Env: cfg.env(), Behav: bh, KillAtTraceLine: fc.kline, KillWhenExists: killWhen}
+		cs := &run.Case{Root: root, Bin: c.Bin, Spec: sp, Env: cfg.env(), Behav: bh, KillAtTraceLine: fc.kline, KillWhenExists: killWhen, SlowStderr: cfg.SlowErr}
 		c.Eval(1)
 		res := cs.Run()
 		if res.Hang != "" {
@@ -330,6 +339,17 @@ func c01(args []string) {
 			fired = len(ti.Starts[fc.key]) > 0
 		case fc.crash != nil || fc.kline > 0 || fc.opts["killgroup"] != "" || fc.visible:
 			fired = res.Signal != ""
+		case fc.label == "fail=overlapping-failures":
+			nf := 0
+			for _, es := range ti.Ends {
+				for _, e := range es {
+					if e.ID == "A" && e.Status != 0 {
+						nf++
+					}
+				}
+			}
+			fired = nf >= 2
+			c.Count("overlapping_failures_observed", nf)
 		case fc.key != "":
 			fired = len(ti.Starts[fc.key]) > 0
 		}
